@@ -7,7 +7,7 @@
   the true functions is decided by the reference-table search; what is written down HERE is the
   branch structure itself — for each function the ORDERED list of guards with their LITERAL cut
   points and a NAME for what is computed on each piece — so that the pin theorems of
-  `Statrs/Draft/C11/BranchPins{Erf,Gamma,Beta,Misc}.lean` can state
+  `Statrs/Props/C11/BranchPins{Erf,Gamma,Beta,Misc}.lean` can state
 
       under the guards of piece k, the generated function IS the named expression of piece k
 
